@@ -17,6 +17,16 @@ static echs_evstrm_t mkstrm(const char *uid, const char *times, echs_oid_t *oid)
 	int allday = *times != 0;
 	for (const char *q = times; *q;) { int t = atoi(q); if (t < 100000 || t % 100000) allday = 0; while (*q && *q != ',') q++; if (*q) q++; }
 	p += sprintf(p, "BEGIN:VCALENDAR\nBEGIN:VEVENT\nUID:%s\nSUMMARY:x\n%s\n", uid, allday ? "DTSTART;VALUE=DATE:20300101" : "DTSTART:20300101T000000Z");
+	/* 66 or more times one minute apart: the same occurrences as a rule (FREQ=MINUTELY;COUNT=n), a constituent that refills its
+	 * cache of 64 while it is being merged */
+	{
+		int n = 0, ap = 1, prev = 0, t0 = 0;
+		for (const char *q = times; *q;) { int t = atoi(q); if (!n) t0 = t; else if (t - prev != 60) ap = 0; prev = t; n++; while (*q && *q != ',') q++; if (*q) q++; }
+		if (ap && n >= 66 && t0 < 100000 && prev < 86400 && !(uid[0] >= 'A' && uid[0] <= 'Z')) {
+			p = ics; p += sprintf(p, "BEGIN:VCALENDAR\nBEGIN:VEVENT\nUID:%s\nSUMMARY:x\nDTSTART:20300101T%02d%02d%02dZ\nRRULE:FREQ=MINUTELY;COUNT=%d\n", uid, t0 / 3600, t0 / 60 % 60, t0 % 60, n);
+			times = "";
+		}
+	}
 	if (*times && !allday && uid[0] >= 'A' && uid[0] <= 'Z') {
 		/* an upper case UID: the same occurrences as an event of two RRULEs plus RDATEs (itself a merge inside the event):
 		 * DTSTART is the first time, both rules yield just that, the other times are RDATEs */
